@@ -119,6 +119,8 @@ func (t *fnTrans) instr(in ssa.Instruction) {
 		sent, _, recvd := t.chanVars(in.Type())
 		t.set(sent.Name, fmt.Sprintf("(store %s %s 0)", t.get(t.cur, sent.Name), r))
 		t.set(recvd.Name, fmt.Sprintf("(store %s %s 0)", t.get(t.cur, recvd.Name), r))
+		cx := t.chanClosedVar(in.Type())
+		t.set(cx.Name, fmt.Sprintf("(store %s %s false)", t.get(t.cur, cx.Name), r))
 		t.setVal(in, Val{T: r})
 	case *ssa.MapUpdate:
 		t.mapUpdate(in)
@@ -610,6 +612,12 @@ func (t *fnTrans) chanVars(ct types.Type) (sent, last, recvd *StateVar) {
 	last = t.stateVar("CV_"+k, "(Array Int "+t.S.sortOf(et)+")", "chan", true, et)
 	recvd = t.stateVar("CR_"+k, "(Array Int Int)", "chan", true, nil)
 	return
+}
+
+// chanClosedVar: per channel, whether close() has been called on it (ghost).
+func (t *fnTrans) chanClosedVar(ct types.Type) *StateVar {
+	et := ct.Underlying().(*types.Chan).Elem()
+	return t.stateVar("CX_"+typeKey(et), "(Array Int Bool)", "chan", true, nil)
 }
 
 func (t *fnTrans) recordSend(ct types.Type, ch, v Term, cond Term) {
